@@ -293,8 +293,11 @@ func GenSched(r *sim.Rand, tier string) sim.Script {
 	// (200 entries) so that the table is full when the concurrent phase starts. All lookups of the concurrent
 	// phase are at blocks near the tip, whose versions are the most recent ones of the table.
 	base := 0
-	if r.Chance(1, 12) {
+	if r.Chance(1, 9) {
 		base = 200 + r.Intn(16)
+		if r.Chance(1, 2) {
+			nKeys = 1 // everything of the concurrent phase is about the hot key
+		}
 		for b := 0; b < base; b++ {
 			nv++
 			s.Ops = append(s.Ops, Op{K: "blk", P: b - 1}, Op{K: "bset", B: b, Y: "k0", V: fmt.Sprintf("v%d", nv)}, Op{K: "bcommit", B: b})
@@ -318,10 +321,26 @@ func GenSched(r *sim.Rand, tier string) sim.Script {
 			s.Ops = append(s.Ops, Op{K: "bset", B: base + b, Y: fmt.Sprintf("k%d", r.Intn(nKeys)), V: fmt.Sprintf("v%d", nv)})
 		}
 	}
-	// commit a prefix sequentially
+	// commit a prefix sequentially - or (1 in 3) any subset in any order, so that the concurrent phase starts with
+	// committed blocks whose parents are not committed yet
 	pre := r.Intn(nb)
-	for b := 0; b < pre; b++ {
-		s.Ops = append(s.Ops, Op{K: "bcommit", B: base + b})
+	committed := map[int]bool{}
+	if r.Chance(1, 3) || (base > 0 && r.Chance(1, 3)) {
+		for _, b := range r.Perm(nb) {
+			if r.Chance(1, 2) {
+				committed[b] = true
+				s.Ops = append(s.Ops, Op{K: "bcommit", B: base + b})
+			}
+		}
+		pre = 0
+		for committed[pre] {
+			pre++
+		}
+	} else {
+		for b := 0; b < pre; b++ {
+			committed[b] = true
+			s.Ops = append(s.Ops, Op{K: "bcommit", B: base + b})
+		}
 	}
 	if pre > 0 && r.Chance(1, 3) {
 		// warm-up reads (memoisation happened before the concurrent phase)
@@ -330,8 +349,10 @@ func GenSched(r *sim.Rand, tier string) sim.Script {
 		}
 	}
 	var uncommitted []int
-	for b := pre; b < nb; b++ {
-		uncommitted = append(uncommitted, base+b)
+	for b := 0; b < nb; b++ {
+		if !committed[b] {
+			uncommitted = append(uncommitted, base+b)
+		}
 	}
 	nTasks := 2 + r.Intn(4)
 	nCommitters := 1 + r.Intn(2)
